@@ -50,7 +50,7 @@ PROBES = ["identity_sampler", "counting_sampler", "recording_builtin", "builtin_
 
 SCORE_NAMED = ["tpr", "fnr", "tnr", "fpr", "topr", "tonr", "tar", "frr", "far", "trr", "acceptance_rate", "rejection_rate"]
 THR_AT = ["threshold_at_fpr", "threshold_at_fnr", "threshold_at_tpr", "threshold_at_tnr"]
-CALLABLES = ["mean_pos", "sizes", "fnr_fpr_mat", "py_float", "int_count", "spread", "spread_or_zero", "max_mult4"]
+CALLABLES = ["mean_pos", "sizes", "fnr_fpr_mat", "py_float", "int_count", "spread", "spread_or_zero", "max_mult4", "inv_spread"]
 GROUP_CALLABLES = ["groupwise_fnr", "group_sizes"]
 
 
@@ -194,6 +194,8 @@ def generate(rnd, tier):
         cfg = {"nb_samples": nb, "bootstrap_method": rnd.choice(["quantile", "bc", "bca"])}
         op = {"op": rnd.choice(["bootstrap_metric", "bootstrap_ci", "bootstrap_ci"]), "metric": metric, "sampler": sampler, "cfg": cfg,
               "alpha": round(rnd.uniform(0.01, 0.5), 3) if rnd.random() < 0.85 else rnd.choice([0.5, 0.75, 0.95, 0.001, 1e-5, 1e-7, 1e-9, 1e-12, round(rnd.uniform(0.5, 0.99), 2)])}
+        if op["alpha"] < 1e-3 and "callable" not in metric and "callable" not in sampler:
+            op["alpha"] = 0.001  # (levels far in the tails only where a callback can stop an operation that keeps drawing)
         if op["op"] == "bootstrap_ci" and cfg["bootstrap_method"] == "quantile" and rnd.random() < 0.25:
             op["alpha"] = [round(rnd.uniform(0.01, 0.5), 3) for _ in range(rnd.randint(1, 3))]
         if not is_group and rnd.random() < 0.04:
@@ -222,6 +224,12 @@ class CallbackFault(Exception):
     pass
 
 
+class RunawayGuard(Exception):
+    """Raised by a recording callback once it has been invoked far more often than nb_samples allows: an operation that
+    keeps drawing (or evaluating) without bound is stopped from inside, deterministically, instead of running into the
+    wall-clock limit of the harness."""
+
+
 # user code fails in many ways; some exception types have a meaning of their own inside loops and iterators
 EXC_TYPES = {"CallbackFault": CallbackFault, "StopIteration": StopIteration, "ValueError": ValueError, "KeyError": KeyError,
              "IndexError": IndexError, "ZeroDivisionError": ZeroDivisionError, "RuntimeError": RuntimeError}
@@ -244,6 +252,10 @@ def base_metric(name, L):
         # a guard returning a Python int in the degenerate case: the return *type* depends on the sample (never on the
         # source alone: resamples of a constant class are constant)
         return lambda s, **kw: 0 if len(s.pos) == 0 or s.pos[0] == s.pos[-1] else float(s.pos[-1] - s.pos[0]) / 3.0
+    if name == "inv_spread":
+        # infinite on resamples whose positives are all equal (never NaN): +-inf replicates are ordinary values for the
+        # order statistics and for the count that defines p0
+        return lambda s, **kw: float(np.float64(1.0) / np.float64(s.pos[-1] - s.pos[0])) if len(s.pos) else float("nan")
     if name == "max_mult4":
         # heavily skewed replicates (mostly 0, rarely 16 or 81): the acceleration of bca comes close to its bound 1/6
         return lambda s, **kw: float((int(np.sum(s.pos == s.pos[-1])) - 1) ** 4) if len(s.pos) else float("nan")
@@ -262,9 +274,13 @@ class RecMetric:
         self.calls = []  # (sample, kwargs, value or exception)
         self.faults = {f["call"]: f for f in faults or [] if f["kind"].startswith("callback_")}
         self.fired = []
+        self.limit, self.runaway = None, False
 
     def __call__(self, sample, **kwargs):
         k = len(self.calls)
+        if self.limit is not None and k >= self.limit:
+            self.runaway = True
+            raise RunawayGuard(f"metric invoked {k + 1} times")
         f = self.faults.get(k)
         if f is not None and f["kind"] == "callback_raise":
             self.fired.append("callback_raise")
@@ -306,9 +322,13 @@ class RecSampler:
         # returns a Scores object holding the new resample); what each call returned is recorded as a snapshot
         self.recycle = bool(spec.get("__recycle")) if isinstance(spec, dict) else False
         self.work = None
+        self.limit, self.runaway = None, False
 
     def __call__(self, source, **kw):
         k = len(self.inputs)
+        if self.limit is not None and k >= self.limit:
+            self.runaway = True
+            raise RunawayGuard(f"sampler invoked {k + 1} times")
         self.inputs.append(source)
         if k in self.raise_at:
             self.fired.append("sampler_raise")
@@ -446,6 +466,9 @@ def execute(scn, ctx):
             config = M.build_config(dict(sspec if s_kind == "builtin" else {}, **cfg), sampler=sampler) if s_kind == "builtin" else \
                 M.build_config(dict(cfg, sampling_method={"callable": s_kind}, stratified_sampling=sspec.get("outer_strat")), sampler=sampler)
             metric = mname if named else RecMetric(base_metric(mname, L), fl, target, ctx)
+            for cb_ in (sampler, None if named else metric):
+                if cb_ is not None:
+                    cb_.limit = 6 * int(cfg["nb_samples"]) + 40  # estimate + replicates + nested re-entrant evaluations, with a wide margin
             if kind == "bootstrap_metric":
                 call = lambda: target.bootstrap_metric(metric, config=config, **kwargs)  # noqa: E731
             else:
@@ -479,6 +502,12 @@ def execute(scn, ctx):
 
         def bad(name, detail):
             viol.append({"invariant": f"C14.{name}", "detail": f"{detail} [op {step}]", "tags": tags})
+
+        runaway = [cb_ for cb_ in (sampler, None if named else metric) if cb_ is not None and cb_.runaway]
+        if runaway:
+            who = "sampler" if runaway[0] is sampler else "metric"
+            bad("one_row_per_sample", f"{kind} with nb_samples={cfg['nb_samples']} invoked the {who} more than {runaway[0].limit} times (stopped from inside the callback)")
+            control_fault = True
 
         if seam.entropy_requests != ent0:
             bad("entropy_escape", "bootstrap code requested OS entropy (argument-less default_rng/RandomState): results cannot be reproducible for a fixed seed")
@@ -641,7 +670,8 @@ def execute(scn, ctx):
                             p0 = np.mean(fl_ <= th.reshape(1, -1), axis=0)
                             if np.any((p0 == 0) | (p0 == 1)):
                                 probe("z0_infinite")
-                        if s_kind == "identity" and not fired:
+                        if s_kind == "identity" and not fired and np.all(np.isfinite(th) | np.isnan(th)):
+                            # (an infinite point estimate: the order statistics of identical infinities are NumPy's inf - inf)
                             point = np.broadcast_to(th[..., None] if not isinstance(alpha, list) else th[..., None, None], ci.shape)
                             if not np.array_equal(ci, point, equal_nan=True):
                                 bad("identity_collapse", f"identity sampler: interval {ci.tolist()} != point estimate {th.tolist()}")
